@@ -58,6 +58,10 @@ CLAUSES (statement + quantifier of C06, split; deciding assertion; populated cla
  13 modes {xu only, x only, both}            mode-xu / mode-x / mode-both in every facet (crisp: now also mode-x)
  14 observed at the returned DataFrames; CSV on request          outputfile-written (WAS NEVER VARIED: flag audit)
  15 histories (second evaluation, several objects)               call_history, three calls in check_relaxation, sq4 twice
+EXTENSION_3 classes 5 / 6: the size classes reach >= 130 / >= 260 particles per average and >= 128 origins per lag
+(tags particles-per-average>=130/260, origins-per-lag>=128; >= 260 origins in the thorough tier); every library call
+(constructors included) runs inside process_state_unchanged() with numpy's error handling at the process default
+(RuntimeWarnings are silenced through the warnings filter, not np.errstate, so that a seterr left behind is seen).
 Not asserted on purpose: chi4 when the selected count differs between origins (N undefined); alpha2 where <r^2> = 0;
 frame-varying boxes (which frame's cell defines the minimum image is not stated); linear sampling with uneven or
 repeated timesteps (the class documents 'constant time interval required'); sq4 with an empty mobile subset.
@@ -73,6 +77,7 @@ Preconditions imposed by the code and respected by the generators (sound-first):
 """
 from __future__ import annotations
 
+import contextlib
 import os
 
 import numpy as np
@@ -115,6 +120,9 @@ ASSUMPTIONS = [
     "30, ppp zeros(3), diameters {1: 1.0, 2: 1.0}, qconst 2 pi, condition None, outputfile '')",
     "size classes place the cut-off at a quantile of the realised displacements of three sampled frame pairs, not in a "
     "gap of all of them: decisions closer than 1e-9 fall under the reference's interval rule",
+    "a constructor / relaxation() / sq4() call leaves the process-wide state (numpy error handling and print options, "
+    "warnings filters, cwd, environment, logging root, global random generators, pandas display options, number of open "
+    "file descriptors) as it found it",
     "value-equal representations (crisp facet): int64 coordinates / cell, labels float64 / int32, ppp bool / float, "
     "integer diameters, numpy-integer keys; float32 coordinates and a list ppp are out of domain (different arithmetic "
     "/ AttributeError on the unchanged tree)",
@@ -442,6 +450,76 @@ def crisp_st(draw):
     return case
 
 
+# ----------------------------------------------------------------------------- process-wide state (EXTENSION_3 class 6)
+
+
+def process_state():
+    """What a call can leave behind without touching any array it returns: the process-wide settings and resources that
+    LATER calls (of any routine) depend on.  {label: comparable value}."""
+    import logging
+    import random
+    import warnings
+
+    import pandas as pd
+
+    st_ = np.random.get_state()
+    try:
+        nfd = len(os.listdir("/proc/self/fd"))
+    except OSError:
+        nfd = -1
+    opts = {}
+    for k in ("display.precision", "display.max_rows", "display.max_columns", "display.width", "display.float_format"):
+        try:
+            opts[k] = repr(pd.get_option(k))
+        except Exception:  # noqa: BLE001 - option unknown to this pandas
+            pass
+    return {"np.geterr()": dict(np.geterr()), "np.geterrcall()": repr(np.geterrcall()),
+            "np.get_printoptions()": sorted((k, repr(v)) for k, v in np.get_printoptions().items()),
+            "len(warnings.filters)": len(warnings.filters), "os.getcwd()": os.getcwd(), "os.environ": dict(os.environ),
+            "logging root (level, handlers, disable)": (logging.root.level, len(logging.root.handlers),
+                                                        logging.root.manager.disable),
+            "np.random global state": (st_[0], st_[1].tobytes(), st_[2], st_[3], st_[4]),
+            "random.getstate()": random.getstate(), "pandas display options": opts,
+            "open file descriptors": nfd}
+
+
+@contextlib.contextmanager
+def process_state_unchanged(what):
+    """The calls made inside the block leave np.geterr(), the print options, the warnings filters, the working
+    directory, the environment, the logging root, both global random generators, pandas' display options and the number
+    of open file descriptors as they found them (on normal return; an exception propagates unchanged)."""
+    before = process_state()
+    yield
+    now = process_state()
+    for label, v in before.items():
+        if now[label] != v:
+            a, b = v, now[label]
+            if isinstance(v, dict):
+                keys = sorted(k for k in set(v) | set(b) if v.get(k) != b.get(k))[:4]
+                a, b = {k: v.get(k) for k in keys}, {k: b.get(k) for k in keys}
+            elif label.endswith("state") or label.endswith("getstate()"):
+                a, b = "<state before>", "<another state: the global generator was used or reseeded>"
+            # put the numeric settings back so that the other cases of this process are judged in a clean state
+            np.seterr(**before["np.geterr()"])
+            raise Violation(f"{what} left process-wide state changed: {label}: {a!r} -> {b!r}")
+
+
+
+@contextlib.contextmanager
+def lib_call(what="the call"):
+    """Library calls run with the RuntimeWarnings silenced through the warnings filter (0/0 in alpha2 of a trajectory
+    that does not move gives the NaN the formula implies), NOT through np.errstate: numpy's error handling stays at the
+    process default inside the block, so that a np.seterr(...) the library leaves behind -- also the natural
+    seterr(divide='ignore', invalid='ignore') -- is seen.  The process-wide state is compared inside the block, after
+    the filter was installed and before it is removed."""
+    import warnings
+
+    with warnings.catch_warnings():
+        warnings.simplefilter("ignore")
+        with process_state_unchanged(what):
+            yield
+
+
 # ----------------------------------------------------------------------------- running the library
 
 
@@ -528,7 +606,8 @@ def make_dynamics(case, mode=None, variant=None):
         if present <= {1, 2} and all(float(diam[k]) == 1.0 for k in present):   # default diameters {1: 1.0, 2: 1.0}
             del kw["diameters"]
             omitted.append("diameters")
-    dyn = cls(**kw)
+    with process_state_unchanged(cls.__name__ + "(...)"):
+        dyn = cls(**kw)
     dyn.verif_omitted = omitted
     return dyn
 
@@ -708,7 +787,7 @@ def check_relaxation(case):
     dyn = make_dynamics(case)
     cond = None if case["cond"] is None else case["cond"].copy()
     outname = "c06_relaxation.csv" if case.get("outfile") else ""
-    with np.errstate(all="ignore"):
+    with lib_call():
         df = dyn.relaxation(**relaxation_kwargs(case, dyn, cond, outname))
     stats = new_stats()
     got = table("relaxation", df, T)
@@ -726,19 +805,19 @@ def check_relaxation(case):
     N = len(case["types"])
     if case["cond"] is None:
         alltrue = np.ones(N if log else (T, N), dtype=bool)
-        with np.errstate(all="ignore"):
+        with lib_call():
             df2 = dyn.relaxation(qconst=case["qconst"], condition=alltrue, outputfile="")
         compare_rows("relaxation(all-True selection, 2nd call)", table("relaxation 2nd", df2, T), rows, tref, new_stats())
     else:
         rows0 = dynref.relaxation(make_traj(case), sigma, case["qconst"], case["a"], case["cal_type"], sel=None,
                                   log=log, err=err)
-        with np.errstate(all="ignore"):
+        with lib_call():
             df2 = dyn.relaxation(qconst=case["qconst"], condition=None, outputfile="")
         compare_rows("relaxation(no selection, 2nd call after a selection)", table("relaxation 2nd", df2, T), rows0,
                      tref, new_stats())
     held.append(("second call", df2, frame_copy(df2)))
     # third call: the first arguments again (second evaluation of the same request on the same object)
-    with np.errstate(all="ignore"):
+    with lib_call():
         df3 = dyn.relaxation(qconst=case["qconst"], condition=None if case["cond"] is None else case["cond"].copy(),
                              outputfile="")
     compare_rows("relaxation(3rd call, arguments of the 1st)", table("relaxation 3rd", df3, T), rows, tref, new_stats())
@@ -780,7 +859,7 @@ def check_wrap_equiv(case):
         res = {}
         for mode in ("xu", "x"):
             dyn = make_dynamics(case, mode=mode, variant=variant)
-            with np.errstate(all="ignore"):
+            with lib_call():
                 df = dyn.relaxation(qconst=case["qconst"], condition=None if cond is None else cond.copy(), outputfile="")
             res[mode] = table(f"{variant}/{mode}", df, T)
         for k, row in enumerate(rows):
@@ -860,7 +939,7 @@ def check_sq4(case):
         return {"nontrivial": False, "tags": tags}
     outname = "c06_sq4.csv" if case.get("outfile") else ""
     dyn = make_dynamics(case)
-    with np.errstate(all="ignore"):
+    with lib_call():
         out = run_sq4(case, dyn, outname)
     compare_sq4("sq4", out, ref)
     keep = frame_copy(out)
@@ -870,7 +949,7 @@ def check_sq4(case):
                     {c: np.asarray(out[c], dtype=float) for c in ("q", "Sq")}, ["q", "Sq"])
     if not case.get("single_call"):
         # second evaluation on the same object (EXTENSION_2 class 6) and the frame handed out first stays what it was
-        with np.errstate(all="ignore"):
+        with lib_call():
             out2 = run_sq4(case, dyn)
         compare_sq4("sq4 (2nd call on the same object)", out2, ref)
         require(frame_unchanged(out, keep), "the DataFrame returned by the first sq4() changed after a second call")
@@ -897,7 +976,7 @@ def check_crisp(case):
                                  err=0.0, rel=0.0)
         tref = dynref.time_axis_linear(case["timesteps"], case["dtmd"])
         dyn = make_dynamics(case, variant=variant)
-        with np.errstate(all="ignore"):
+        with lib_call():
             df = dyn.relaxation(qconst=case["qconst"], condition=None, outputfile="")
         compare_rows(f"crisp relaxation [{variant}]", table(f"crisp {variant}", df, T), rows, tref, new_stats())
     # exact ties present?
@@ -910,7 +989,7 @@ def check_crisp(case):
     if ref["empty"] or ref["q_ambiguous"]:
         tags.append("sq4-skipped-empty")
     else:
-        with np.errstate(all="ignore"):
+        with lib_call():
             out = run_sq4(case, make_dynamics(case, variant="lin"))
         compare_sq4("crisp sq4", out, ref)
         tags.append("sq4-checked")
@@ -952,11 +1031,16 @@ def boundary_values(blocks):
 def size_spec_st(draw, deep=False):
     """A small picklable SPEC; the trajectory is built in the check from the drawn seed (the entropy of hundreds of
     coordinates does not fit Hypothesis' buffer).  One size axis sits on a block boundary, the others stay small."""
-    axis = draw(st.sampled_from(["N", "N", "N", "T", "T", "cn", "sq4-N", "sq4-N", "sq4-T", "sq4-M"]))
+    # the joint class (axis, d, K, boundary value) comes from numpy's generator seeded with two Hypothesis-drawn
+    # integers: uniform and independent over the grid (st.sampled_from draws came out clumped: Hypothesis repeats and
+    # mutates blocks of earlier draws)
+    seed, offset = draw(st.integers(0, 2 ** 32 - 1)), draw(st.integers(0, 2 ** 16))
+    rng = np.random.default_rng([seed, offset, 6])
+    axis = str(rng.choice(["N", "N", "N", "T", "T", "cn", "sq4-N", "sq4-N", "sq4-T", "sq4-M"]))
     sq4 = axis.startswith("sq4")
-    d = draw(st.sampled_from([2, 3]))
-    K = draw(st.integers(1, 3))
-    spec = {"axis": axis, "deep": bool(deep), "d": d, "K": K, "seed": draw(st.integers(0, 2 ** 32 - 1)),
+    d = int(rng.choice([2, 3]))
+    K = int(rng.integers(1, 4))
+    spec = {"axis": axis, "deep": bool(deep), "d": d, "K": K, "seed": seed, "offset": offset,
             "cell": draw(cell_st(d, "ortho" if sq4 else draw(st.sampled_from(["ortho", "tri"])), lmin=2.0, lmax=30.0)),
             "kind": draw(st.sampled_from(KINDS)), "amp": draw(st.sampled_from(AMPS)),
             "mode": draw(st.sampled_from(["xu", "x", "both"])), "cal_type": draw(st.sampled_from(["slow", "fast"])),
@@ -970,9 +1054,7 @@ def size_spec_st(draw, deep=False):
             "ppp": draw(ppp_st(d)), "outfile": draw(st.sampled_from([False, False, True])),
             "defaults": draw(st.sampled_from([False, False, True])), "cmax": 5, "size": None}
     def pick(values):
-        # uniform over the boundary values (st.sampled_from visits a long list unevenly): index from numpy's generator
-        # seeded with the Hypothesis-drawn seed
-        return values[int(np.random.default_rng([spec["seed"], 6]).integers(len(values)))]
+        return values[int(rng.integers(len(values)))]
 
     if axis in ("N", "sq4-N"):
         spec["size"] = spec["N"] = pick(boundary_values(SIZE_BLOCKS[axis][deep]))
@@ -1015,7 +1097,7 @@ def size_spec_st(draw, deep=False):
 
 def build_size_case(spec):
     """The full case dict (same keys as case_st) of a size spec; deterministic in the spec."""
-    rng = np.random.default_rng(spec["seed"])
+    rng = np.random.default_rng([spec["seed"], spec.get("offset", 0)])
     d, K, N, T = spec["d"], spec["K"], spec["N"], spec["T"]
     cell = spec["cell"]
     H, lo = cell["H"], cell["lo"]
@@ -1118,6 +1200,14 @@ def check_size(spec):
             "outputfile", "some-default", "subset-", "amb", "tie", "kind-", "origins", "t-")
     info["tags"] = [t for t in info["tags"] if t.startswith(keep)]
     info["tags"] += [f"size-axis-{axis}", "variant-" + spec["variant"]]
+    # EXTENSION_3 class 5 (measured): counts that an int8 / uint8 accumulator cannot hold -- particles entering one
+    # average, origins entering one lag
+    nsel = len(case["types"]) if case["cond"] is None else int(np.asarray(case["cond"]).reshape(-1, len(case["types"]))[0].sum())
+    if nsel >= 130:
+        info["tags"].append("particles-per-average>=260" if nsel >= 260 else "particles-per-average>=130")
+    norig = len(case["pos"]) - 1 - (spec.get("lag", 1) - 1) if spec["variant"] == "lin" else 1
+    if norig >= 128:
+        info["tags"].append("origins-per-lag>=260" if norig >= 260 else "origins-per-lag>=128")
     if spec["aq"] == "all":
         info["tags"].append("sq4-subset=N-at-origin-0")
     if axis == "sq4-M":
@@ -1185,7 +1275,7 @@ def check_history(case):
             qc = c_["qconst"] if op != "relax-qconst" else 0.5 * c_["qconst"] + 1.0
             cond = None if op == "relax-nosel" or c_["cond"] is None else c_["cond"].copy()
             rows = dynref.relaxation(make_traj(c_), sigma, qc, c_["a"], c_["cal_type"], sel=cond, log=False, err=err)
-            with np.errstate(all="ignore"):
+            with lib_call():
                 df = dyn.relaxation(qconst=qc, condition=cond, outputfile="")
             compare_rows(what, table(what, df, T), rows, dynref.time_axis_linear(c_["timesteps"], c_["dtmd"]), new_stats())
             counts["relax"] += 1
@@ -1197,7 +1287,7 @@ def check_history(case):
             ref = sq4_reference(cc)
             if ref["empty"] or ref["namb"] or ref["q_ambiguous"]:
                 continue
-            with np.errstate(all="ignore"):
+            with lib_call():
                 df = run_sq4(cc, dyn)
             compare_sq4(what, df, ref)
             counts["sq4"] += 1
